@@ -17,6 +17,7 @@ mod galgo;
 mod vecidx;
 mod exec;
 mod front;
+mod sparql;
 mod q;
 mod qmeta;
 mod txstress;
@@ -48,6 +49,7 @@ fn main() {
         "vec" => vecidx::main(&opts),
         "exec" => exec::main(&opts),
         "front" => front::main(&opts),
+        "sparql" => sparql::main(&opts),
         "snapfault" => snap::faults(&opts),
         "q" => q::main(&opts),
         "qprobe" => q::probe(&opts),
